@@ -191,6 +191,50 @@ pub fn run(ctx: &Ctx) -> i32 {
         }
     }
     ctx.note("weather_file", json!({"hours": met.data.len(), "hours_checked_for_horizontal_conservation": n_conserv}));
+    // the same identities for free inputs (also combinations no weather file holds: strong direct radiation under a low sun)
+    let mut n_free = 0u64;
+    for lat in [0.0f32, 28.0, 40.7, 43.4, -35.0] {
+        for nday in [15u32, 80, 172, 266, 355] {
+            for hh in 10..=38 {
+                let hour = hh as f32 * 0.5;
+                let decl = solar::declination_from_nday(nday);
+                let alt_model = solar::altitude_sol_from_data(decl, solar::hourangle_from_tsol(hour), lat);
+                if alt_model < 6.0 {
+                    continue;
+                }
+                for dir in [0.0f32, 20.0, 150.0, 250.0, 500.0, 900.0] {
+                    for dif in [0.0f32, 40.0, 150.0, 400.0] {
+                        for albedo in [0.2f32, 0.0, 0.5] {
+                            let gin = (dir + dif) as f64;
+                            if gin == 0.0 {
+                                continue;
+                            }
+                            n_free += 1;
+                            let case = || json!({"part": "radiation-free-inputs", "latitude": lat, "nday": nday, "hour": hour, "dir_hor": dir, "dif_hor": dif, "albedo": albedo, "altitude": alt_model});
+                            let hor = climate::radiation_for_surface(nday, hour, SolarRadiation { dir, dif }, lat, 0.0, 0.0, albedo);
+                            let gout = (hor.dir + hor.dif) as f64;
+                            if (gout - gin).abs() > 0.001 * gin + 0.05 {
+                                ctx.violation("radiation:horizontal-not-conserved", &format!("horizontal surface receives {:.3} W/m2 for {:.3} W/m2 global horizontal", gout, gin), case());
+                            }
+                            let down = climate::radiation_for_surface(nday, hour, SolarRadiation { dir, dif }, lat, 180.0, 0.0, albedo);
+                            let dout = (down.dir + down.dif) as f64;
+                            if (dout - albedo as f64 * gin).abs() > 0.001 * gin + 0.05 {
+                                ctx.violation("radiation:downward-not-albedo", &format!("downward surface receives {:.3} W/m2, albedo x global = {:.3}", dout, albedo as f64 * gin), case());
+                            }
+                            for (t, a) in [(90.0f32, 0.0f32), (90.0, 180.0), (30.0, -90.0), (135.0, 45.0)] {
+                                let r = climate::radiation_for_surface(nday, hour, SolarRadiation { dir, dif }, lat, t, a, albedo);
+                                if r.dir < 0.0 || !r.dir.is_finite() || !r.dif.is_finite() {
+                                    ctx.violation("radiation:negative-or-nonfinite-beam", &format!("beam {} diffuse {} on tilt {} azimuth {}", r.dir, r.dif, t, a), case());
+                                }
+                            }
+                        }
+                    }
+                }
+            }
+        }
+    }
+    n_eval += 6 * n_free;
+    ctx.note("free_inputs", json!({"points_with_altitude_ge_6": n_free}));
     // ---------------- (5) embedded tables
     let classes = ["N", "NE", "E", "SE", "S", "SW", "W", "NW", "HZ"];
     {
@@ -285,7 +329,7 @@ pub fn run(ctx: &Ctx) -> i32 {
     ctx.outcome_merge(&outcomes);
     ctx.finish(
         "model_checking",
-        &format!("all 365 (month, day) pairs against a calendar table (nday_from_md and nday_from_ymd); sun altitude/azimuth on the full grid latitude [-66,66] x declination [-23.45,23.45] x hour angle (-180,180) with step {} degrees against the spherical-astronomy sun vector (E,N,U) for altitudes in [1,89] (0.05 degrees; azimuth tolerance scaled by 1/cos(alt)); incidence angle for tilt 0..180 x surface azimuth -180..180 (15 degree grid) x 6 latitudes x 5 declinations x 47 hour angles against the angle between that sun vector and WallGeom::normal (also tied to ray_dir_to_sun); all 8760 hours of zonaD3.met: horizontal conservation (altitude >= 6), downward = albedo x global, beam >= 0 on the 9 standard orientations; 32 zones x 9 classes x 12 months and July-day rows exist, non-negative; zone names round-trip; D3 July rows == weather file rows; D3 monthly rows == monthly sums of the radiation model on the shipped file; row label == class of the azimuth it was computed for", step),
+        &format!("all 365 (month, day) pairs against a calendar table (nday_from_md and nday_from_ymd); sun altitude/azimuth on the full grid latitude [-66,66] x declination [-23.45,23.45] x hour angle (-180,180) with step {} degrees against the spherical-astronomy sun vector (E,N,U) for altitudes in [1,89] (0.05 degrees; azimuth tolerance scaled by 1/cos(alt)); incidence angle for tilt 0..180 x surface azimuth -180..180 (15 degree grid) x 6 latitudes x 5 declinations x 47 hour angles against the angle between that sun vector and WallGeom::normal (also tied to ray_dir_to_sun); all 8760 hours of zonaD3.met: horizontal conservation (altitude >= 6), downward = albedo x global, beam >= 0 on the 9 standard orientations; the same three identities on the free-input grid latitude{{0,28,40.7,43.4,-35}} x day{{15,80,172,266,355}} x half hours 5..19 (model altitude >= 6) x dir{{0,20,150,250,500,900}} x dif{{0,40,150,400}} x albedo{{.2,0,.5}}; 32 zones x 9 classes x 12 months and July-day rows exist, non-negative; zone names round-trip; D3 July rows == weather file rows; D3 monthly rows == monthly sums of the radiation model on the shipped file; row label == class of the azimuth it was computed for", step),
         true,
         json!({}),
     )
